@@ -39,7 +39,7 @@ def run(c: Check):
     fails += c.validate_segments("TraceBillStat", "TraceBillStat1.cfg", ev3)
     nrej = sum(1 for e in ev3 if e["ev"] == "UploadFail")
     modes = set(e.get("mode") for e in ev3 if e["ev"] == "UploadFail")
-    if not {"open", "mid", "final", "deadline", "auth", "badreq", "ratelimit", "quota"} <= modes:
+    if not {"open", "mid", "final", "deadline", "auth", "badreq", "ratelimit", "quota", "stall"} <= modes:
         from vlib import Undecided
         raise Undecided("uploader harness: rejection modes seen %s" % modes)
     for e in ev + ev1:
